@@ -31,14 +31,23 @@ def _read_units():
     return out
 
 
+def _bulk_units():
+    return [('contracts.bulk', 'AddInteractionsFrom', (cls,), v) for cls in ('DynGraph', 'DynDiGraph')
+            for v in ({'t': 'int', 'e': 'none'}, {'t': 'int', 'e': 'int'}, {'t': 'none', 'e': 'none'})]
+
+
+def _ctor_units():
+    return [('contracts.ctor', 'Init', (cls,), {'edge_removal': e}) for cls in ('DynGraph', 'DynDiGraph') for e in ('default', 'given')]
+
+
 # property id -> list of (module, factory, args, variant)
 PROOF_UNITS = {
-    'C01': _kernel_units('removal') + _observer_units('removal'),
-    'C03': _kernel_units('removal'),
+    'C01': _kernel_units('removal') + _observer_units('removal') + _bulk_units() + _ctor_units(),
+    'C03': _kernel_units('removal') + _ctor_units(),
     'C04': _kernel_units('removal') + _read_units(),
     'C05': _kernel_units('removal') + [('contracts.kernel', 'AddInteraction', (cls,), {'mode': 'removal', 't': 'int', 'e': e, 'inv': 'strong'})
                                        for cls in ('DynGraph', 'DynDiGraph') for e in ('none', 'int')],
-    'C07': _kernel_units('removal') + _kernel_units('accum'),
+    'C07': _kernel_units('removal') + _kernel_units('accum') + _bulk_units(),
     'C06': [('contracts.slice', 'TimeSlice', (cls,), {'t_to': t}) for cls in ('DynGraph', 'DynDiGraph') for t in ('int', 'none')]
            + [('contracts.ctor', 'Init', (cls,), {'edge_removal': e}) for cls in ('DynGraph', 'DynDiGraph') for e in ('default', 'given')],
     'C08': _kernel_units('accum') + _observer_units('accum'),
